@@ -19,13 +19,12 @@ func c16LifecycleUnderStopLock(p *Prog, r *Report, rule string) {
 	if fi == nil {
 		return
 	}
-	lr := p.LockFlow(fi, nil)
 	recv := "p"
 	if fi.Decl.Recv != nil && len(fi.Decl.Recv.List[0].Names) == 1 {
 		recv = fi.Decl.Recv.List[0].Names[0].Name
 	}
 	n := 0
-	for _, ev := range lr.Events {
+	for _, ev := range p.DeepLockEvents(fi, nil, 2) {
 		if ev.Kind != "fieldwrite" || ev.Field == nil || !isLifecycleField("internal/utils/wpool.Pool."+ev.Field.Name()) {
 			continue
 		}
